@@ -608,7 +608,7 @@ class Extracted:
             if pos is None:
                 new_parts.append(prm); continue
             pat, ty = prm[:pos].strip(), prm[pos + 1:].strip()
-            if re.match(r'^(mut\s+)?[A-Za-z_][A-Za-z0-9_]*$', pat):
+            if re.match(r'^[A-Za-z_][A-Za-z0-9_]*$', pat) or (re.match(r'^mut\s+[A-Za-z_][A-Za-z0-9_]*$', pat) and not names):
                 new_parts.append(prm); continue
             name = names[k] if k < len(names) else '__p%d' % k
             k += 1
